@@ -313,6 +313,7 @@ def oracle(ctx, heavy=False):
                              "list-of-tensors state equals concatenated state")
                 ctx.count(("tuple", name, meth, direction))
     time_unit_oracle(ctx)
+    scale_and_dtype_oracle(ctx)
 
 
 def time_unit_oracle(ctx):
@@ -343,6 +344,40 @@ def time_unit_oracle(ctx):
                 elif float((yt - ref).abs().max()) > 1e-9:
                     ctx.fail("oracle", "ivp:%s:time-unit-dependence" % meth, info, float((yt - ref).abs().max()),
                              "the same trajectory in every unit of time")
+
+
+def scale_and_dtype_oracle(ctx):
+    """(atol, rtol) settings on states of very different amplitude: the error scale is atol + rtol |y| (seeded defect C07/4: the
+    two swapped - invisible when |y| ~ 1); the working dtype is the state's (seeded defect C07/6: taken from the time grid)"""
+    from xitorch.integrate import solve_ivp
+    Arot = torch.tensor([[0.0, 1.0], [-1.0, 0.0]], dtype=DT)
+    ts = torch.linspace(0, 6.0, 5, dtype=DT)
+    exact = torch.stack([torch.cos(ts), -torch.sin(ts)], dim=-1)
+    for meth in ("rk45", "rk23"):
+        for amp, atol, rtol in ((1e-6, 1e-12, 1e-6), (1e3, 1e-3, 1e-6), (1.0, 1e-9, 1e-6)):
+            f = guarded(lambda t, y: Arot @ y, 400000)
+            yt = solve_ivp(f, ts, amp * torch.tensor([1.0, 0.0], dtype=DT), method=meth, atol=atol, rtol=rtol)
+            err = float((yt - amp * exact).norm(dim=-1).max())
+            ctx.count(("amplitude", meth, amp))
+            if err > 300 * (atol + rtol * amp):
+                ctx.fail("oracle", "ivp:%s:accuracy-vs-amplitude" % meth, {"family": "rotation", "amplitude": amp, "atol": atol, "rtol": rtol},
+                         err, "<= %g" % (300 * (atol + rtol * amp)))
+    for meth in ("euler", "rk4", "rk38", "rk23", "rk45"):
+        y0 = torch.tensor([1.0, 0.3], dtype=DT)
+        yt = solve_ivp(lambda t, y: -y, torch.linspace(0, 1, 4, dtype=torch.float32), y0, method=meth)
+        ctx.count(("dtype-grid32", meth))
+        if yt.dtype != DT or not torch.equal(yt[0], y0):
+            ctx.fail("oracle", "ivp:%s:dtype-follows-grid" % meth, {"state": "float64", "grid": "float32"}, [str(yt.dtype), yt[0].tolist()],
+                     "float64 result with y(ts[0]) == y0")
+        y0c = torch.tensor([1.0 + 0.5j, 0.3 - 1.0j], dtype=torch.complex128)
+        tsc = torch.linspace(0, 1, 9, dtype=DT)
+        ytc = solve_ivp(lambda t, y: 1j * y, tsc, y0c, method=meth)
+        ctx.count(("dtype-complex", meth))
+        refc = y0c * torch.exp(1j * tsc).unsqueeze(-1)
+        tolc = {"euler": 0.2, "rk4": 1e-5, "rk38": 1e-5, "rk23": 1e-3, "rk45": 1e-4}[meth]
+        if ytc.dtype != torch.complex128 or not torch.equal(ytc[0], y0c) or float((ytc - refc).abs().max()) > tolc:
+            ctx.fail("oracle", "ivp:%s:complex-state" % meth, {"state": "complex128", "grid": "float64"},
+                     [str(ytc.dtype), float((ytc - refc).abs().max()) if ytc.dtype == torch.complex128 else None], "complex128 result within %g" % tolc)
 
 
 def search(ctx):
